@@ -339,3 +339,23 @@ func (w *World) failsUnder(fn *ssa.Function, base func(ssa.Value) (bool, bool), 
 }
 
 var _ = types.Typ
+
+// storeEvents labels the stores to the listed canonical addresses
+// ("set:<addr>=<value>", helpers expanded by the enumerator).
+func (w *World) storeEvents(addrs ...string) func(ssa.Instruction) string {
+	set := map[string]bool{}
+	for _, a := range addrs {
+		set[a] = true
+	}
+	return func(in ssa.Instruction) string {
+		st, ok := in.(*ssa.Store)
+		if !ok {
+			return ""
+		}
+		a := w.Canon(st.Addr)
+		if !set[a] {
+			return ""
+		}
+		return "set:" + a + "=" + w.Canon(st.Val)
+	}
+}
